@@ -44,6 +44,10 @@ type lStatePool struct {
 	s     *Server
 	saved []*lua.LState
 	total int
+	// cmds holds, per interpreter, the command (eval, evalro, evalna, ...) of
+	// the script it is running. tile38.call dispatches on it; it cannot be
+	// the EVAL_CMD global, which the script itself can assign to.
+	cmds sync.Map
 }
 
 // newPool returns a new pool of lua states
@@ -121,7 +125,9 @@ func (pl *lStatePool) New() *lua.LState {
 	}
 
 	getArgs := func(ls *lua.LState) (evalCmd string, args []string) {
-		evalCmd = ls.GetGlobal("EVAL_CMD").String()
+		if cmd, ok := pl.cmds.Load(ls); ok {
+			evalCmd = cmd.(string)
+		}
 
 		// Trying to work with unknown number of args.
 		// When we see empty arg we call it enough.
@@ -481,6 +487,8 @@ func (s *Server) cmdEvalUnified(scriptIsSha bool, msg *Message) (res resp.Value,
 			"DEADLINE": luaDeadline,
 			"EVAL_CMD": lua.LString(msg.Command()),
 		})
+	s.luapool.cmds.Store(luaState, msg.Command())
+	defer s.luapool.cmds.Delete(luaState)
 	// clear them again on every way out, including an unknown sha or a script
 	// that does not compile, so that nothing leaks into the next user of this
 	// pooled state
